@@ -1068,6 +1068,10 @@ class MetaTermMixin(object):
 
     def __setattr__(self, name, value):
         if self._has_terms() and name in self._super_get('_plural'):
+            # a value stored under this name before the terms existed (a constructor
+            # keyword) is superseded: the terms are the only source of truth from now on
+            self.__dict__.pop(name, None)
+
             # get the total number of arguments
             size = np.atleast_1d(flatten(getattr(self, name))).size
 
